@@ -48,6 +48,39 @@ class Bundle(CborArray):
         data = b'\x9f' + b''.join(cbor2.dumps(part) for part in item) + b'\xff'
         return data
 
+    @staticmethod
+    def _split_octets(data):
+        ''' Get the encoded form of each block of a received bundle.
+
+        :return: A list of the block encodings, or None if the outer
+            array is not in the form required of a bundle.
+        '''
+        import io
+        if data[:1] != b'\x9f':
+            return None
+        buf = io.BytesIO(data)
+        buf.seek(1)
+        decoder = cbor2.CBORDecoder(buf)
+        octets = []
+        try:
+            while data[buf.tell():buf.tell() + 1] not in (b'\xff', b''):
+                start = buf.tell()
+                decoder.decode()
+                octets.append(data[start:buf.tell()])
+        except Exception:
+            return None
+        return octets
+
+    def dissect(self, s):
+        octets = self._split_octets(s) if isinstance(s, bytes) else None
+        CborArray.dissect(self, s)
+        if octets:
+            # keep what was received for the CRC checks
+            blocks = ([self.primary] if self.primary is not None else []) + list(self.blocks)
+            if len(blocks) == len(octets):
+                for (blk, blk_octets) in zip(blocks, octets):
+                    blk.__dict__['_rx_octets'] = blk_octets
+
     def post_dissect(self, s):
         # Special handling for admin payload
         if self.primary and self.primary.getfieldval('bundle_flags') & PrimaryBlock.Flag.PAYLOAD_ADMIN:
